@@ -13,7 +13,9 @@ Record case := mkcase {
   c_yaml : option (yv * obs);     (* the same content as YAML and mapping.UnmarshalYamlBytes' outcome *)
   c_conf : option (jv * obs);     (* the same content with re-spelled keys and conf.LoadFromJsonBytes' outcome *)
   c_keys : list (string * string); (* (key spelling, conf.toCamelCase of it) observed *)
-  c_outside : bool                (* shape/document outside the modelled universe: checked for panic-freedom only *)
+  c_outside : bool;               (* shape/document outside the modelled universe: checked for panic-freedom only *)
+  c_rt : option (val * val * obs) (* round trip: intended request value, the value the driver built (sent with
+                                     httpc.buildRequest + DoRequest), and what httpx.Parse made of the request *)
 }.
 
 Definition res_matches (r : result val) (o : obs) : bool :=
@@ -59,7 +61,11 @@ Definition model_ok (c : case) : bool :=
   | None => true
   | Some (d, o) => res_matches (unmarshal n (camel_ty (c_ty c)) (camel_keys d)) o
   end &&
-  forallb (fun kc => String.eqb (to_camel_case (fst kc)) (snd kc)) (c_keys c).
+  forallb (fun kc => String.eqb (to_camel_case (fst kc)) (snd kc)) (c_keys c) &&
+  match c_rt c with
+  | None => true
+  | Some (intended, built, _) => val_eqb intended built      (* the driver sent the generated value *)
+  end.
 
 Definition obs_eqb (a b : obs) : bool :=
   match a, b with
@@ -73,7 +79,7 @@ Definition obs_ok (t : ty) (d : jv) (o : obs) : bool :=
   match o with
   | OPanic => false                                   (* it never panics *)
   | OErr => true                                      (* failing with an error is always allowed *)
-  | OOk v => agrees true t d v                        (* exact, defaults, optional zero, required, options, range *)
+  | OOk v => agrees t d v                        (* exact, defaults, optional zero, required, options, range *)
   end.
 
 (* "optional absent fields stay zero": a document that leaves out every field of an all-optional struct cannot
@@ -107,4 +113,10 @@ Definition spec_ok (c : case) : bool :=
       | OOk _, OErr => false
       | _, _ => true
       end
+  end &&
+  match c_rt c with
+  | None => true
+  | Some (_, built, o) =>
+      (* a well-formed request struct sent with the client helper is parsed back into an equal struct *)
+      match o with OOk w => val_eqb built w | _ => false end
   end.
